@@ -13,6 +13,7 @@
 #include <test/util/random.h>
 #include <uint256.h>
 #include <undo.h>
+#include <sys/resource.h>
 using namespace vfh;
 
 namespace {
@@ -168,6 +169,8 @@ struct GcsWorld {
 int main(int argc, char** argv)
 {
     if (argc < 3) return 2;
+    // a defect in the code under test must not take the (shared) machine down: an absurd allocation fails and is reported for the step
+    { struct rlimit rl{2ULL << 30, 2ULL << 30}; setrlimit(RLIMIT_AS, &rl); }
     SeedRandomStateForTest(SeedRand::FIXED_SEED);      // CRollingBloomFilter draws its tweak from the global RNG: RANDOM_CTX_SEED fixes it
     const std::string mode = argv[1];
     if (mode == "replay_bloom")
